@@ -236,7 +236,7 @@ pub fn explore(thorough: bool, c01_only: bool) -> RetainStats {
                 for k in c * chunk..((c + 1) * chunk).min(count) {
                     let orig = registry_at(&choices, k);
                     st.registries += 1;
-                    for (mask, kind) in (0..(1u32 << plan.n)).flat_map(|m| (0..if c01_only { 1u8 } else { 3u8 }).map(move |k| (m, k))) {
+                    for (mask, kind) in (0..(1u32 << plan.n)).flat_map(|m| (0..if c01_only || count > 2_000_000 { 1u8 } else { 3u8 }).map(move |k| (m, k))) {
                         st.calls += 1;
                         let res = catch(std::panic::AssertUnwindSafe(|| check_retain_kind(&orig, mask, c01_only, kind)));
                         let fail = match res {
